@@ -458,27 +458,123 @@ func viable(b *ssa.BasicBlock, idx int, pred *ssa.BasicBlock) bool {
 
 type bstate struct {
 	b, pred *ssa.BasicBlock
+	dec     string // decisions taken on pure conditions along this path: ";canon=T;canon=F"
+}
+
+// pureCond reports whether the truth of cond cannot change between two evaluations inside fn:
+// it is built from constants, parameters, captured variables and loads of fields of those that
+// are never stored to in fn, combined by comparisons, negation and len().
+func pureCond(v ssa.Value, d int) bool {
+	if d > 6 {
+		return false
+	}
+	switch x := v.(type) {
+	case *ssa.Const, *ssa.Parameter, *ssa.FreeVar, *ssa.Global:
+		return true
+	case *ssa.BinOp:
+		return pureCond(x.X, d+1) && pureCond(x.Y, d+1)
+	case *ssa.UnOp:
+		if x.Op == token.NOT {
+			return pureCond(x.X, d+1)
+		}
+		if x.Op == token.MUL {
+			fa, ok := x.X.(*ssa.FieldAddr)
+			if !ok || !pureCond(fa.X, d+1) {
+				return false
+			}
+			// no store to this field anywhere in the function
+			name := FieldName(fa.X.Type(), fa.Field)
+			stored := false
+			InstrsOf(x.Parent(), func(in Instruction) {
+				if st, ok := in.(*ssa.Store); ok {
+					if fa2, ok := st.Addr.(*ssa.FieldAddr); ok && FieldName(fa2.X.Type(), fa2.Field) == name {
+						stored = true
+					}
+				}
+			})
+			return !stored
+		}
+	case *ssa.Call:
+		if b, ok := x.Call.Value.(*ssa.Builtin); ok && b.Name() == "len" {
+			return pureCond(x.Call.Args[0], d+1)
+		}
+	case *ssa.ChangeType:
+		return pureCond(x.X, d+1)
+	case *ssa.MakeInterface:
+		return pureCond(x.X, d+1)
+	}
+	return false
+}
+
+// decide returns the decision key of b's terminating If when its condition is pure ("" otherwise)
+// and whether taking successor idx means the (negation-stripped) condition is true.
+func decide(b *ssa.BasicBlock, idx int) (key string, val bool) {
+	if len(b.Instrs) == 0 {
+		return "", false
+	}
+	ifi, ok := b.Instrs[len(b.Instrs)-1].(*ssa.If)
+	if !ok {
+		return "", false
+	}
+	base, neg := StripNot(ifi.Cond)
+	if _, isPhi := base.(*ssa.Phi); isPhi {
+		return "", false
+	}
+	if _, isConst := base.(*ssa.Const); isConst {
+		return "", false
+	}
+	if !pureCond(base, 0) {
+		return "", false
+	}
+	return Canon(base), (idx == 0) != neg
+}
+
+// step returns the state reached by taking successor i of st.b, or ok=false if the edge is cut,
+// dead, threaded away, or contradicts an earlier decision on the same pure condition.
+func step(st bstate, i int, cut map[Edge]bool) (bstate, bool) {
+	if cut[Edge{st.b, i}] || !viable(st.b, i, st.pred) {
+		return bstate{}, false
+	}
+	dec := st.dec
+	if key, val := decide(st.b, i); key != "" {
+		t, f := ";"+key+"=T", ";"+key+"=F"
+		if val {
+			if strings.Contains(dec, f) {
+				return bstate{}, false
+			}
+			if !strings.Contains(dec, t) && len(dec) < 600 {
+				dec += t
+			}
+		} else {
+			if strings.Contains(dec, t) {
+				return bstate{}, false
+			}
+			if !strings.Contains(dec, f) && len(dec) < 600 {
+				dec += f
+			}
+		}
+	}
+	return bstate{st.b.Succs[i], st.b, dec}, true
 }
 
 // ReachAvoiding returns the blocks reachable from start without traversing any edge in cut
-// (platform-dead edges are never traversed, Ifs on phis of boolean constants are threaded).
+// (platform-dead edges are never traversed, Ifs on phis of boolean constants are threaded and
+// repeated tests of one pure condition are taken consistently).
 func ReachAvoiding(start *ssa.BasicBlock, cut map[Edge]bool) map[*ssa.BasicBlock]bool {
 	seen := map[*ssa.BasicBlock]bool{start: true}
-	sseen := map[bstate]bool{{start, nil}: true}
-	work := []bstate{{start, nil}}
-	for len(work) > 0 {
+	first := bstate{start, nil, ""}
+	sseen := map[bstate]bool{first: true}
+	work := []bstate{first}
+	for len(work) > 0 && len(sseen) < 200000 {
 		st := work[len(work)-1]
 		work = work[:len(work)-1]
-		for i, s := range st.b.Succs {
-			if cut[Edge{st.b, i}] || !viable(st.b, i, st.pred) {
-				continue
-			}
-			ns := bstate{s, st.b}
-			if sseen[ns] {
+		for i := range st.b.Succs {
+			ns, ok := step(st, i, cut)
+			if !ok || sseen[ns] {
 				continue
 			}
 			sseen[ns] = true
-			seen[s] = true
+			seen[ns.b] = true
 			work = append(work, ns)
 		}
 	}
@@ -487,11 +583,11 @@ func ReachAvoiding(start *ssa.BasicBlock, cut map[Edge]bool) map[*ssa.BasicBlock
 
 // PathAvoiding returns one path (block indices) from start to target avoiding cut edges, or nil.
 func PathAvoiding(start, target *ssa.BasicBlock, cut map[Edge]bool) []int {
-	first := bstate{start, nil}
+	first := bstate{start, nil, ""}
 	prev := map[bstate]bstate{}
 	seen := map[bstate]bool{first: true}
 	queue := []bstate{first}
-	for len(queue) > 0 {
+	for len(queue) > 0 && len(seen) < 200000 {
 		st := queue[0]
 		queue = queue[1:]
 		if st.b == target {
@@ -505,12 +601,9 @@ func PathAvoiding(start, target *ssa.BasicBlock, cut map[Edge]bool) []int {
 			}
 			return path
 		}
-		for i, s := range st.b.Succs {
-			if cut[Edge{st.b, i}] || !viable(st.b, i, st.pred) {
-				continue
-			}
-			ns := bstate{s, st.b}
-			if seen[ns] {
+		for i := range st.b.Succs {
+			ns, ok := step(st, i, cut)
+			if !ok || seen[ns] {
 				continue
 			}
 			seen[ns] = true
